@@ -10,6 +10,8 @@ pub mod monitor;
 pub mod pubsub;
 pub mod replication;
 pub mod config;
+#[cfg(feature = "verif-hooks")]
+pub mod verif_hooks;
 
 // Re-export commonly used types
 pub use error::FerrousError;
